@@ -766,3 +766,35 @@ Definition mat_session (r c : Z) (ops : list mat_op) (p : mat_probe) : res mat :
   let* m := mat_history (mat_new r c) ops in mat_probe_guard m p ;; Ok m.
 Definition mat_bad_rows (m : mat) : Z :=
   zlen (filter (fun l => negb (l =? m_cols m)) (firstn (Z.to_nat (m_rows m)) (m_lens m))).
+
+(** ** 10. Requests made from inside a call-back, abandoned calls, and several requests in one process
+    A function handed to the library (an integrand, the function whose root is sought) may itself make a guarded request
+    - the usual case is an integrand that evaluates an Interpolation object - or leave by an exception that the caller
+    catches.  What one evaluation of the call-back does is one of three things. *)
+Inductive callback_outcome : Type := CbReturns | CbExits | CbThrows.
+(** what the process sees of a request that was made: it goes on (the request returned, or the caller caught the
+    exception), or it has ended *)
+Definition process_outcome (o : callback_outcome) : res unit := match o with CbExits => Exit | _ => Ok tt end.
+Definition outcome_of (g : res unit) : callback_outcome := match g with Ok _ => CbReturns | _ => CbExits end.
+Section Nested.
+Context {T : Type} (Ops : NumOps T).
+(** Integrate(func, a, b, method, parameter): the method name is tested first, `if(a == b) return 0.0;` comes before the
+    first evaluation of the integrand, limits in descending order are swapped (with a warning) and every method evaluates
+    its integrand on a non-empty interval *)
+Definition integrate_outcome (m : string) (a b : T) (o : callback_outcome) : callback_outcome :=
+  if negb (str_in m methods_1d) then CbExits else if neqb Ops a b then CbReturns else o.
+(** Integrate_2D: the nested methods call Integrate on an integrand that calls Integrate; the Monte Carlo methods sample the
+    region whatever its limits are *)
+Definition integrate_2d_outcome (m : string) (x1 x2 y1 y2 : T) (o : callback_outcome) : callback_outcome :=
+  if str_in m methods_1d then integrate_outcome m x1 x2 (integrate_outcome m y1 y2 o)
+  else if str_in m methods_mc then o else CbExits.
+Definition integrate_3d_outcome (m : string) (x1 x2 y1 y2 z1 z2 : T) (o : callback_outcome) : callback_outcome :=
+  if str_in m methods_1d then integrate_outcome m x1 x2 (integrate_outcome m y1 y2 (integrate_outcome m z1 z2 o))
+  else if str_in m methods_mc then o else CbExits.
+(** Find_Root(func, xLeft, xRight, accuracy): func is evaluated at both ends before the bracket is tested *)
+Definition find_root_outcome (f : T -> T) (xl xr : T) (o : callback_outcome) : callback_outcome :=
+  match o with CbReturns => outcome_of (guard_find_root Ops f xl xr) | _ => o end.
+End Nested.
+(** several requests made one after the other in one process: the first one that exits ends it *)
+Fixpoint process_session (l : list (res unit)) : res unit :=
+  match l with [] => Ok tt | g :: r => g ;; process_session r end.
